@@ -158,7 +158,7 @@ def nesterov_loop_correspondence(R, cases, tier):
     inside coqc, replay the support pairs gjk_nesterov_accelerated obtained, pass by pass, with and without
     acceleration: directions, number of support evaluations, contact flag, distance and iteration count must
     agree (harness/narrow_corr9.py, harness/impl/narrowbtrace9.py)."""
-    n = 110 if tier == "quick" else 700
+    n = 80 if tier == "quick" else 700
     step = max(1, len(cases) // n)
     sel = cases[::step]
     # every unwrapped primitive pair as well: there the jitted *_primitives variant is run against the model
@@ -376,7 +376,7 @@ def run(tier, seed, replay=None):
             both = prim_ok(s1) and prim_ok(s2)
             bump("dispatch:" + ("specialized" if both else "generic"))
     try:
-        verdicts = cm.coq_eval_lines(PID, nb.COQ_HEADER, exprs, tag="cert", per_file=12, timeout=1500)
+        verdicts = cm.coq_eval_lines(PID, nb.COQ_HEADER, exprs, tag="cert", per_file=20, timeout=1500)
     except RuntimeError as e:
         R.proof_broken.append(f"checker evaluation failed: {str(e)[:400]}")
         verdicts = []
@@ -405,7 +405,7 @@ def run(tier, seed, replay=None):
         ex2 = [f"enclosure_cert {info['A']} {info['B']} {info['wa']} {info['wb']} {nw.vq(info['n'])} {nw._q(info['lo'])} {nw._q(info['up'])}"
                for _, info in redo]
         try:
-            enc = cm.coq_eval_lines(PID, nb.COQ_HEADER, ex2, tag="explain", per_file=12, timeout=1500)
+            enc = cm.coq_eval_lines(PID, nb.COQ_HEADER, ex2, tag="explain", per_file=20, timeout=1500)
         except RuntimeError as e:
             R.proof_broken.append(f"checker evaluation failed: {str(e)[:400]}")
             enc = ["false"] * len(redo)
